@@ -4,8 +4,6 @@ from .. import common, roles, lemmas
 from ..roles import P_, param, INFO_TY, ENV_TY, AnchorMissing
 from ..mir import generic_path
 
-PAIRS = "I:halo_factory::state::PAIRS"
-ALLOW = "I:halo_factory::state::ALLOW_NATIVE_TOKENS"
 BOUNDING = {"take", "skip", "step_by", "take_while", "skip_while", "filter", "filter_map", "map_while", "scan", "flat_map", "zip", "chain"}
 
 
@@ -73,6 +71,7 @@ def run(ctx):
     r4 = ctx.inst("C17.R4", "the allow-list is written under the same key derivation the denom query reads, on every success path", floor=2)
     r5 = ctx.inst("C17.R5", "pair side: stored decimals are replaced by the message's array exactly when one of the pair's native denoms equals the message denom; the rest of the record is preserved", floor=3)
     try:
+        PAIRS, ALLOW = ctx.N.PAIRS, ctx.N.ALLOW
         fr = roles.FactoryRoles(P)
         pr = roles.PairRoles(P)
     except AnchorMissing as e:
@@ -185,7 +184,10 @@ def run(ctx):
     # ---- R3 ----------------------------------------------------------------------------------------------
     item = walk["item_root"]
     loop_blocks = body.reachable_from(walk["some_edge"][1], cut_edges=(walk["none_edge"],))
-    qden = lemmas.find_assoc(P, "haloswap::asset::AssetInfo", "query_denom_of_native_token")
+    try:
+        qden = ctx.N.native_denom
+    except AnchorMissing:
+        qden = None
     if qden is not None:
         ok = False
         for b, v, cs in lemmas.fn_table(ctx, qden):
@@ -195,7 +197,7 @@ def run(ctx):
         if not ok:
             r3.fail("C17.R3:denom-lemma", qden.path, qden.span, "query_denom_of_native_token does not return the native asset's own denom")
     msgs = [(fn, b, i, v, span) for (fn, b, i, adt, var, v, span) in common.message_sites(P)
-            if fn.path == h.path and adt.endswith("pair::ExecuteMsg") and var == "UpdateNativeTokenDecimals"]
+            if fn.path == h.path and adt == ctx.N.exec_enum("pair") and var == "UpdateNativeTokenDecimals"]
     execs = [(fn, b, sp, tgt, pay, funds, v) for (fn, b, sp, tgt, pay, funds, v) in __import__("analysis.rules.c07", fromlist=["x"]).exec_sites(ctx) if fn.path == h.path]
     covered = set()
 
@@ -283,7 +285,7 @@ def run(ctx):
         # key of the save == key of the loaded record == key(item assets)
         rec = sv[4][3]
         recs = "|".join(sorted(ctx.roots(rec)))
-        mload = re.search(r"mload\(I:halo_factory::state::PAIRS\)\[([^\]]*)\]", recs)
+        mload = re.search(r"mload\(%s\)\[([^\]]*)\]" % re.escape(PAIRS), recs)
         key = "|".join(sorted(ctx.roots(sv[4][2])))
         if not mload or mload.group(1) != key:
             r3.fail("C17.R3:record-key:%s" % idx, h.path, where, "the record is saved under %s but was read under %s" % (key[:80], mload.group(1)[:80] if mload else "?"))
@@ -316,7 +318,7 @@ def run(ctx):
             r3.fail("C17.R3:message-count:%s" % idx, h.path, where, "%d update messages are built in the region of position %s, expected exactly one" % (len(mine), idx))
             continue
         b, sp, tgt, pay = mine[0]
-        want_pay = "bin(A:haloswap::pair::ExecuteMsg::UpdateNativeTokenDecimals{denom=%s,asset_decimals=%s})" % (DENOM, want_arr)
+        want_pay = "bin(A:%s::UpdateNativeTokenDecimals{denom=%s,asset_decimals=%s})" % (ctx.N.exec_enum("pair"), DENOM, want_arr)
         if tgt != {"human(%s.contract_addr)" % stored}:
             r3.fail("C17.R3:message-target:%s" % idx, h.path, sp, "update message goes to %s, expected the updated record's contract" % sorted(tgt))
         elif "|".join(sorted(pay)) != want_pay:
@@ -395,13 +397,13 @@ def run(ctx):
     pbody = ph.body
     pden = common.param_index_of_type(ph, r"^std::string::String$")
     parr = common.param_index_of_type(ph, r"^\[u8; 2\]$")
-    psaves = [(b, v) for (b, op, it, v) in common.storage_sites(P, ph, writes=True) if it == "I:halo_pair::state::PAIR_INFO"]
+    psaves = [(b, v) for (b, op, it, v) in common.storage_sites(P, ph, writes=True) if it == ctx.N.PAIR_INFO]
     if pden is None or parr is None or len(psaves) != 1:
         r5.fail("C17.R5:anchor", ph.path, ph.span, "anchor-missing: pair decimals handler shape (String, [u8;2], one PAIR_INFO write)")
     else:
         sb, sv = psaves[0]
         rec = sv[4][2]
-        stored = "load(I:halo_pair::state::PAIR_INFO)"
+        stored = "load(%s)" % ctx.N.PAIR_INFO
         where = common.span_of_block_term(ph, sb)
         for fld in ("contract_addr", "liquidity_token", "requirements", "commission_rate"):
             g = "|".join(sorted(ctx.roots(rec, (("f", fld),))))
